@@ -197,7 +197,7 @@ CLAIMS.update({
     "C07": dict(
         technique="Lean 4 theorems (append-shortcut decision rule; worker-level convergence from the run contracts: bookkeeping survives every run, rebuilding runs repair, incremental runs preserve, quiescent = from scratch) + end-to-end comparison of every quiescent history with a fresh Nucleo",
         text="Theorems: the Update shortcut is taken only for a truthful append onto a column not already due for a rescore whose last atom is positive, not "
-             "postfix/exact, does not end in a backslash and (unless fuzzy) not in an escaped dollar (repair of F9), and which keeps normalizing the haystack if it did (repair of F16), with decided witnesses that each excluded class is not a "
+             "postfix/exact, does not end in a backslash and (unless fuzzy) not in an escaped dollar (repair of F9), and which keeps normalizing the haystack if it did (repair of F16); can_append_to itself is translated from src/pattern.rs on every run and proved to be the model's rule (companion file C07_Translated); with decided witnesses that each excluded class is not a "
              "narrowing; appending text changes only the last atom (companion file C07_Append: the splitter is a left-to-right scan with one bit of state, so every piece of the old "
              "text but the last is a piece of the new text and the atoms parsed from them are the first atoms of the new pattern, unchanged and in order - "
              "C07_append_keeps_earlier_atoms; the narrowing property the shortcut needs therefore concerns the last atom alone, which is what can_append_to inspects; for the fuzzy kind and a fixed "
@@ -293,7 +293,7 @@ CLAIMS.update({
         technique="Lean 4 invariant over all histories of injector/clone/drop/restart/reparse/tick with arbitrary tick oracles + history replay",
         text="Theorem C20_history: for every history of injector(), clone, drop, restart(true|false), reparse and tick - every lock outcome, counter value and background-run effect "
              "that leaves the worker's stream handle alone (proved for Worker::run) - active_injectors equals the number of live injector handles of the current stream; injectors of "
-             "older streams are never counted. Tied to the code by replaying seeded histories (including writer threads holding injector clones) and comparing after every event.",
+             "older streams are never counted. The formula of active_injectors and State::matcher_item_refs / canceled / cleared are translated from src/lib.rs on every run (Gen/Rules.lean) and proved to be the model's (companion file C20_Translated). Tied to the code also by replaying seeded histories (including writer threads holding injector clones) and comparing after every event.",
         note=NU_NOTE),
 })
 
